@@ -172,6 +172,29 @@ func propC01(c *Ctx) {
 						sx, rnd = v, prevRnd
 					}
 				}
+				// a header field that happens to spell the length of the datagram (what stream framings put in front of
+				// a message: RFC 8229 length prefix, non-ESP marker): the 2nd message of a group gets an initiator SPI,
+				// responder SPI or Message ID derived from its own protected length
+				if i%5 == 1 {
+					if pres, _ := protect(newSA(k), buildMsg(sx), role, rnd, -1); pres.kind == "ok" {
+						n := uint64(len(pres.val) / 2)
+						hdr := sx.List[1]
+						switch idx % 6 {
+						case 0:
+							hdr.List[1] = N(n<<48 | uint64(g.r.Intn(65536)))
+						case 1:
+							hdr.List[1] = N(n << 32)
+						case 2:
+							hdr.List[1] = N((n+4)<<48 | uint64(g.r.Intn(65536)))
+						case 3:
+							hdr.List[2] = N(n)
+						case 4:
+							hdr.List[1] = N(n<<32 | uint64(g.r.Intn(1<<16)))
+						default:
+							hdr.List[7] = N(n & 0xFFFFFFFF)
+						}
+					}
+				}
 				prevSx, prevRnd = sx, rnd
 				lsa.keepPeers = i%5 == 2 || i%5 == 3 // these two go to the SAME long-lived receivers, one after the other
 				idx++
@@ -375,10 +398,61 @@ func propC02(c *Ctx) {
 			}
 		}
 	}
+	c.c02Large(g)
 	c.c02Rekeyed(g)
 	sc := c.suite("unprotect-model-vs-impl", "correspondence",
 		"sample of the altered datagrams: Go DecodeDecrypt outcome must equal the Lean model's unprotect outcome; non-trivial as above")
 	c.correspond(sc, corr)
+}
+
+// large protected messages: implementations switch strategy with size (buffering, chunking, parallel work); the
+// order "verify, then decrypt" and the refusals must not depend on it
+func (c *Ctx) c02Large(g *Gen) {
+	s := c.suite("tamper-large", "oracle",
+		"per suite (rotating roles): protected messages whose single Vendor ID payload makes the SK body about 1, 4, 8 (±16), 9, 16, 20, 32 and 60 KiB; alterations: one flipped bit in the header, the IV, the first / middle / last ciphertext block and the checksum, cut by 1 / 16 octets and to half, extended by 1 / 16 octets, protected under unrelated keys, reflected to the sender's role; each must be refused with the spy cipher's Decrypt count at 0, the genuine one accepted with count 1; non-trivial = every case; distinct by altered datagram")
+	idx := 0
+	sizes := []int{1000, 4096, 8192 - 64, 8192 - 16, 8192, 9000, 16384, 20000, 32768, 60000}
+	for n, st := range allSuites() {
+		sender := message.Role(n%2 == 0)
+		k := g.saKeys(st)
+		for j, sz := range sizes {
+			if !c.thorough() && (n+j)%3 != 0 {
+				continue
+			}
+			sx := L(A("msg"), g.header(), L(L(A("V"), X(g.keyBytesRandom(sz)))))
+			p1, _ := protect(newSA(k), buildMsg(sx), sender, g.keyBytesRandom(32), -1)
+			if p1.kind != "ok" {
+				continue
+			}
+			m1 := unhx(p1.val)
+			sa := newSA(k)
+			si, sr := installSpies(sa)
+			chk := func(alt []byte, what string) {
+				idx++
+				c.c02Check(s, k, sa, si, sr, !sender, m1, alt, what, idx, true, nil, false)
+			}
+			chk(m1, "genuine")
+			icv := refIntegOutLen[st.i]
+			for _, p := range []int{5, 20, 28 + 4 + 3, 28 + 4 + 16 + 1, len(m1) / 2, len(m1) - icv - 16, len(m1) - icv - 1, len(m1) - icv, len(m1) - 1} {
+				if p >= 0 && p < len(m1) {
+					alt := append([]byte{}, m1...)
+					alt[p] ^= 1 << uint(p%8)
+					chk(alt, "bitflip")
+				}
+			}
+			chk(m1[:len(m1)-1], "prefix")
+			chk(m1[:len(m1)-16], "prefix")
+			chk(m1[:len(m1)/2], "prefix")
+			chk(append(append([]byte{}, m1...), 0), "extension")
+			chk(append(append([]byte{}, m1...), g.keyBytesRandom(16)...), "extension")
+			if un, _ := protect(newSA(g.saKeysUnrelated(k)), buildMsg(sx), sender, g.keyBytesRandom(32), -1); un.kind == "ok" {
+				chk(unhx(un.val), "crosskey")
+			}
+			// reflection: the receiver's role presented with a message of its own direction
+			idx++
+			c.c02Check(s, k, sa, si, sr, sender, nil, m1, "reflect", idx, true, nil, false)
+		}
+	}
 }
 
 // SA objects that obtained their keys the way the library provides (GenerateKeyForIKESA), some of them twice: an object
